@@ -225,7 +225,13 @@ where
 /// Converts a compressed GGLWE-to-GGSW key to a mutably-borrowed variant.
 pub trait GGLWEToGGSWKeyCompressedToMut {
     /// Returns a mutably-borrowed view.
+    ///
+    /// The view owns a *copy* of the per-cell seeds (see [`GGLWECompressedToMut`]):
+    /// seeds written through the view must be stored with [`Self::seed_mut`].
     fn to_mut(&mut self) -> GGLWEToGGSWKeyCompressed<&mut [u8]>;
+
+    /// Returns the per-cell PRNG seeds of the `i`-th GGLWE of the key.
+    fn seed_mut(&mut self, i: usize) -> &mut Vec<[u8; 32]>;
 }
 
 impl<D: DataMut> GGLWEToGGSWKeyCompressedToMut for GGLWEToGGSWKeyCompressed<D>
@@ -236,5 +242,9 @@ where
         GGLWEToGGSWKeyCompressed {
             keys: self.keys.iter_mut().map(|c| c.to_mut()).collect(),
         }
+    }
+
+    fn seed_mut(&mut self, i: usize) -> &mut Vec<[u8; 32]> {
+        &mut self.keys[i].seed
     }
 }
